@@ -23,6 +23,9 @@ import GormModel.Lemmas.ReadPaths
 import GormModel.Model.ScanLoop
 import GormModel.Lemmas.ScanLoop
 import GormModel.Gen.ReadPathFacts
+import GormModel.Model.ScanPool
+import GormModel.Lemmas.ScanPool
+import GormModel.Gen.ScanPoolFacts
 namespace Gorm
 
 /-! ## Limit / Offset merge as a fold over ANY call sequence -/
@@ -660,5 +663,124 @@ theorem C15_single_under_fault (reset : Bool) (rows : List SRow) (f : Option Nat
       | cons r rs =>
         by_cases hk : k ≤ rs.length <;>
           simp [mkCursor, hk, queryPath, dbScan, gormScan, finishScan, delivered]
+
+
+/-! ## Round 3 — concurrent readers: the scan-holder discipline of `scanIntoStruct`
+
+  "… report the same rows and values" is demanded of every reader whatever other goroutines do with the same
+  `*gorm.DB`.  The struct-destination paths borrow their per-column scan holders from `field.NewValuePool`, a
+  process-wide `sync.Pool` keyed by Go type; a holder that is in the pool may be handed to any other goroutine,
+  which then scans a foreign value into it.  Model/ScanPool.lean: the statement order of the function as regenerated
+  from the source (`Gen.scanIntoStructOrder`), an interpreter of any such order (`rowsRun`: the Get / rows.Scan /
+  field.Set / Put actions of one goroutine for n rows; tied to the real code by the `pool.trace` correspondence) and a
+  `sync.Pool` shared by ANY number of goroutines under ANY interleaving (`step`). -/
+
+open ScanPool in
+/-- One pool, any number of goroutines, any schedule, any choice of the pool among its free holders: if every
+    goroutine only scans into / reads / puts back slots whose holder it got and has not put back (`discAll`), then at
+    every rows.Scan and field.Set the holder behind each slot is NOT IN THE POOL and no other slot of any goroutine
+    owns it — "a holder is never in the pool while a row still reads it". -/
+theorem C15_holder_never_pooled_while_read (es : List GEv) (s : GState) (hI : Inv s) (hd : discAll s es) :
+    safeAll s es :=
+  safeAll_of_discAll es s hI hd
+
+open ScanPool in
+/-- that bookkeeping is a per-goroutine matter: it can be checked on each goroutine's own action sequence -/
+theorem C15_goroutine_bookkeeping_suffices (es : List GEv) (s : GState)
+    (h : ∀ t, localOK (proj t es) (isOwned s t) = true) : discAll s es :=
+  discAll_of_localOK es s h
+
+open ScanPool in
+/-- every `disciplined` statement order (one unguarded Get per field column before rows.Scan; after it, per field
+    column, the reads and then one unguarded, non-deferred Put) keeps the bookkeeping for EVERY number of rows, every
+    set of field columns and every slot state the result set starts with, and owns nothing afterwards -/
+theorem C15_disciplined_order_keeps_bookkeeping (sk : Skeleton) (hd : disciplined sk = true) (ch : Nat → Bool)
+    (fs : List Nat) (hfs : fs.Nodup) (n : Nat) (st : RunSt) (hst : st.defers = []) :
+    localOK (rowsRun ch fs sk n st) noneOwned = true ∧
+    ∀ i, ownAfter (rowsRun ch fs sk n st) noneOwned i = false :=
+  rowsRun_localOK' sk hd ch fs hfs n st hst
+
+open ScanPool in
+/-- the facts regenerated from the tree under verification: scanIntoStruct's statement order is disciplined, no
+    other code of package gorm / callbacks touches a value pool, gorm.Scan hands scanIntoStruct the `values` and `fields`
+    tables it made itself for this call, prepareValues (map destinations) allocates its holders per row, and every pool's
+    `New` builds a fresh holder.  Hoisting the Get out of the per-row
+    path, deferring or moving the Put, or sharing `values` / the holders breaks THIS obligation. -/
+theorem C15_holder_discipline_current_tree :
+    Gen.scanIntoStructFound = true ∧
+    disciplined (decodeSkeleton Gen.scanIntoStructOrder) = true ∧
+    Gen.scanPoolCallsOutsideFieldLoops = 0 ∧
+    Gen.scanIntoStructValuesLocal = true ∧
+    Gen.scanIntoStructFieldsLocal = true ∧
+    Gen.prepareValuesFresh = true ∧
+    Gen.scanPoolNewFresh = true := by
+  decide
+
+open ScanPool in
+/-- Headline for the tree under verification.  ANY number of goroutines, each reading ANY sequence of result sets (any
+    numbers of rows, any field columns) through scanIntoStruct AS REGENERATED, interleaved in ANY way on one pool that
+    hands out its free holders in ANY order: whenever a row is scanned or one of its fields is set, every holder
+    involved is out of the pool and owned by that slot alone — no reader can see a value another reader scanned. -/
+theorem C15_concurrent_scans_never_share_a_holder (es : List GEv) (ch : Nat → Nat → Bool)
+    (qs : Nat → List (List Nat × Nat)) (hfs : ∀ t, ∀ q ∈ qs t, q.1.Nodup)
+    (hint : IsInterleaving es
+      (fun t => resultSets (ch t) (decodeSkeleton Gen.scanIntoStructOrder) (qs t))) :
+    safeAll GState.init es :=
+  concurrent_scans_safe _ C15_holder_discipline_current_tree.2.1 es ch qs hfs hint
+
+namespace ScanPool
+
+/-- "fetch the holder once per result set": `if values[idx] == nil { values[idx] = pool.Get(); defer pool.Put(values[idx]) }` -/
+def hoistedGetOrder : Skeleton :=
+  [.fieldLoop [.get .ifSlotNil, .put .ifSlotNil true], .scanAll, .fieldLoop [.set]]
+
+/-- the Put moved in front of field.Set -/
+def earlyPutOrder : Skeleton :=
+  [.fieldLoop [.get .always], .scanAll, .fieldLoop [.put .always false, .set]]
+
+def soloEvents (as : List Act) : List GEv := as.map fun a => { t := 0, act := a }
+
+/-- goroutine 0 reads its first row, goroutine 1 starts a scan and receives the holder goroutine 0 just put back -/
+def overlapPrefix : List GEv :=
+  [{ t := 0, act := .get 0 }, { t := 0, act := .scan [0] }, { t := 0, act := .set 0 }, { t := 0, act := .put 0 },
+   { t := 1, act := .get 0, pick := some 0 }]
+
+end ScanPool
+
+open ScanPool in
+/-- The discipline is NECESSARY (1): with the Get hoisted out of the per-row path and the Put deferred, the second
+    row of a SINGLE goroutine already scans into a holder that sits in the pool; and with a second goroutine whose Get
+    receives that holder, goroutine 0's second row writes and reads through goroutine 1's holder.  (Sequentially
+    nothing is visible: nobody else takes the holder.) -/
+theorem C15_holder_hoisted_get_counterexample :
+    disciplined hoistedGetOrder = false ∧
+    anyPooledRead GState.init (soloEvents (rowsRun (fun _ => false) [0] hoistedGetOrder 2 {})) = true ∧
+    proj 0 (overlapPrefix ++ [{ t := 0, act := .scan [0] }, { t := 0, act := .set 0 }])
+      = rowsRun (fun _ => false) [0] hoistedGetOrder 2 {} ∧
+    sharedWith (run GState.init overlapPrefix) { t := 0, act := .scan [0] } 1 0 = true := by
+  decide
+
+open ScanPool in
+/-- The discipline is NECESSARY (2): with the Put in front of field.Set the very first row reads a pooled holder. -/
+theorem C15_holder_early_put_counterexample :
+    disciplined earlyPutOrder = false ∧
+    anyPooledRead GState.init (soloEvents (rowsRun (fun _ => false) [0, 1] earlyPutOrder 1 {})) = true := by
+  decide
+
+open ScanPool in
+/-- non-vacuity: the order of the unchanged tree is disciplined, and its hypotheses are met by a real overlap — two
+    goroutines, two field columns, two rows each, goroutine 1 starting between goroutine 0's rows and receiving the
+    holders goroutine 0 put back -/
+example : disciplined [.fieldLoop [.get .always], .scanAll, .fieldLoop [.set, .put .always false]] = true := by decide
+
+open ScanPool in
+example :
+    let sk : Skeleton := [.fieldLoop [.get .always], .scanAll, .fieldLoop [.set, .put .always false]]
+    let row := rowsRun (fun _ => false) [0, 1] sk 1 {}
+    let es : List GEv := (row.map fun a => { t := 0, act := a }) ++
+      (row.map fun a => { t := 1, act := a, pick := some 0 }) ++ (row.map fun a => { t := 0, act := a })
+    proj 0 es = resultSets (fun _ => false) sk [([0, 1], 2)] ∧ proj 1 es = resultSets (fun _ => false) sk [([0, 1], 1)]
+      ∧ anyPooledRead GState.init es = false := by
+  decide
 
 end Gorm
